@@ -1582,6 +1582,10 @@ def gen_C11(rng, tier):
         reqs = b"".join(E.u32(rng.getrandbits(32) if rng.random() < 0.5 else rng.randrange(0, 24)) for _ in range(n))
         cases.append("hdr " + hx(E.header([E.htag(3, 0, E.u32(7)), E.htag(1, rng.randrange(2), reqs), E.htag(1, 0, E.u32(99))])))
         count(dist, "request_lists")
+    for n in (0, 1, 2, 300, 5000, 70000):
+        for t in (E.htag(6, 1, b""), E.htag(5, 0, E.u32(1) + E.u32(2) + E.u32(3))):
+            cases.append("hbigwalk %d %s" % (n, hx(t)))
+            count(dist, "many_header_tags")
     hd = {}
     hpool = gen_hdr_regions(rng, 40, hd, malformed=0.0)
     for _ in range(1500 if tier == "thorough" else 120):
@@ -1627,6 +1631,13 @@ def gen_C09(rng, tier):
             t = (E.u16(typ) + E.u16(s % 2) + E.u32(s) + bytes(body))[:n]
             cases.append("hdr " + hx(E.header([t, E.htag(6, 0, b"")])))
             count(dist, "tag_sizes")
+    # very many header tags (n copies of one tag): counters narrower than usize, recursion per tag in the iterator or a
+    # getter; model side: the closed form proved in C11_big
+    for n in (0, 1, 255, 256, 257, 4095, 65535, 65536, 70000):
+        for t in (E.htag(6, 0, b""), E.htag(4, 1, E.u32(1)), E.htag(1, 0, E.u32(3) + E.u32(5) + E.u32(9)), E.htag(10, 0, E.u32(1) + E.u32(2) + E.u32(3) + E.u32(2))):
+            if 24 + n * len(t) < 2 ** 22:
+                cases.append("hbigwalk %d %s" % (n, hx(t)))
+                count(dist, "many_header_tags")
     # declared lengths that are no multiple of 8 (and all small lengths): never loaded, nothing behind the length is touched
     for length in list(range(0, 41)) + [44, 47, 49, 52, 60, 100]:
         n = max(16, (length + 7) // 8 * 8 + 8)
